@@ -4,6 +4,7 @@ CONSTANTS
  OrigIds = {"o1", "r1"}
  RampIds = {"r1"}
  DestIds = {"d1", "d2"}
+ InvalTable <- MCInvalTable
  NameOf <- MCNameOf
  InvalImplicitNodes = FALSE
  DestNameWrite = TRUE
